@@ -764,15 +764,21 @@ theorem validators_use_their_decoders :
     ruleOfValidator (validatorOf false) = sigRuleFor false ∧ ruleOfValidator (validatorOf true) = sigRuleFor true ∧
     validateParams = ["ctx", "bridgerAddr", "signatureAddr", "signature", "checkpoint"] := by decide
 
-/-! ## 11. (round 3) genesis import of stored confirmations — `InitGenesis` files them by BRIDGER account -/
+/-! ## 11. (round 3) genesis import of stored confirmations — since fix `f8fe09e` `InitGenesis` files them by EXTERNAL address -/
 
-/-- what the source compares (regenerated): both imported confirmation lists are filed under the oracle whose current
-BRIDGER account equals the confirmation's — not under the oracle whose external key signed it -/
-theorem genesis_import_matches_by_bridger :
-    genesisConfirmMatch = [("BatchConfirms", "confirm.BridgerAddress", "==", "oracle.BridgerAddress", "SetBatchConfirm"),
-      ("OracleSetConfirms", "confirm.BridgerAddress", "==", "oracle.BridgerAddress", "SetOracleSetConfirm")] := by decide
+/-- the comparison `InitGenesis` had before fix `f8fe09e`: by bridger account -/
+def bridgerCmp (list : String) : String × String × String × String × String :=
+  (list, "confirm.BridgerAddress", "==", "oracle.BridgerAddress",
+    if list = "BatchConfirms" then "SetBatchConfirm" else "SetOracleSetConfirm")
 
-/-- `_partial`: while no bridger account has changed hands — the oracle the confirmation is stored under is still registered
+/-- what the source compares (regenerated): both imported confirmation lists are filed under the oracle whose registered
+EXTERNAL address equals the confirmation's — the key its signature verifies under (fix `f8fe09e`; before it the comparison
+was by bridger account, see `genesis_import_misfiles`) -/
+theorem genesis_import_matches_by_external :
+    genesisConfirmMatch = [("BatchConfirms", "confirm.ExternalAddress", "==", "oracle.ExternalAddress", "SetBatchConfirm"),
+      ("OracleSetConfirms", "confirm.ExternalAddress", "==", "oracle.ExternalAddress", "SetOracleSetConfirm")] := by decide
+
+/-- `_partial` (the comparison BEFORE fix `f8fe09e`, kept as the record of what was provable of it): while no bridger account has changed hands — the oracle the confirmation is stored under is still registered
 with the bridger the confirmation was submitted from, and bridger accounts are unique in the registry — the import files a
 stored confirmation under exactly its own oracle.  Missing for the full statement: bridger accounts DO change hands
 (`MsgUnbondedOracle` + `MsgBondedOracle`, `EditBridger`), see `genesis_import_misfiles` -/
@@ -780,12 +786,9 @@ theorem genesis_import_keeps_owner_partial (list : String) (hl : list = "BatchCo
     (oracles : List (Nat × OracleRec)) (e : Entry) (r : OracleRec)
     (hkeys : (oracles.map (·.1)).Nodup) (hmem : (e.oracle, r) ∈ oracles) (hb : r.bridger = e.bridger)
     (huniq : ∀ p ∈ oracles, p.2.bridger = e.bridger → p.1 = e.oracle) :
-    importOwners (genesisCmpOf list) oracles e = [e.oracle] := by
-  have hc : genesisCmpOf list = (list, "confirm.BridgerAddress", "==", "oracle.BridgerAddress",
-      if list = "BatchConfirms" then "SetBatchConfirm" else "SetOracleSetConfirm") := by
-    rcases hl with rfl | rfl <;> decide
-  have hm : ∀ p : Nat × OracleRec, genesisMatches (genesisCmpOf list) e p.2 = (e.bridger == p.2.bridger) := by
-    intro p; rw [hc]; simp [genesisMatches, genesisSideC, genesisSideO]
+    importOwners (bridgerCmp list) oracles e = [e.oracle] := by
+  have hm : ∀ p : Nat × OracleRec, genesisMatches (bridgerCmp list) e p.2 = (e.bridger == p.2.bridger) := by
+    intro p; simp [bridgerCmp, genesisMatches, genesisSideC, genesisSideO]
   unfold importOwners
   simp only [hm]
   induction oracles with
@@ -811,16 +814,16 @@ theorem genesis_import_keeps_owner_partial (list : String) (hl : list = "BatchCo
       simp only [List.filter_cons, hne, if_false]
       exact ih hkeys.2 hmem' (fun q hq => huniq q (by simp [hq]))
 
-/-- the full statement is FALSE of the code as it is: a registry and a stored confirmation (oracle 1 confirmed from bridger
+/-- the full statement was FALSE of the code before fix `f8fe09e` (comparison by bridger account): a registry and a stored confirmation (oracle 1 confirmed from bridger
 "X"; oracle 1 is gone, oracle 2 registered with bridger "X" and its own external key) for which the import files the
 confirmation under oracle 2 — an oracle whose external address is not the confirmation's (replayed on the real keeper by the
 harness: `genesisBridgerReuse`, fixes/C12-genesis-confirm-owner.md) — while matching by external address files it nowhere -/
 theorem genesis_import_misfiles :
     let e : Entry := ⟨.oracleSet 7, 1, "X", "extA", [9], [1, 2, 3], ⟨"X", "extA"⟩⟩
     let registry : List (Nat × OracleRec) := [(2, ⟨"X", "extB"⟩)]
-    importOwners (genesisCmpOf "OracleSetConfirms") registry e = [2] ∧
+    importOwners (bridgerCmp "OracleSetConfirms") registry e = [2] ∧
     (registry.lookup 2).map (·.external) ≠ some e.external ∧
-    importOwners ("OracleSetConfirms", "confirm.ExternalAddress", "==", "oracle.ExternalAddress", "SetOracleSetConfirm") registry e = [] := by
+    importOwners (genesisCmpOf "OracleSetConfirms") registry e = [] := by
   decide
 
 /-- with the repair (match by external address) the owner is right whatever happened to the bridger accounts: external
@@ -834,6 +837,32 @@ theorem genesis_import_by_external_keeps_owner (list store : String) (oracles : 
   apply huniq p hp
   simp [genesisMatches, genesisSideC, genesisSideO] at hm
   exact hm.symm
+
+/-- FULL statement, over the comparison regenerated from the source as it is now: for both imported lists and every exported
+registry in which external addresses are unique (the registry invariant, `Props/C13.registry_bijective`), whatever happened
+to the bridger accounts, `InitGenesis` files a stored confirmation under no oracle other than its own -/
+theorem genesis_import_keeps_owner (list : String) (hl : list = "BatchConfirms" ∨ list = "OracleSetConfirms")
+    (oracles : List (Nat × OracleRec)) (e : Entry)
+    (huniq : ∀ p ∈ oracles, p.2.external = e.external → p.1 = e.oracle) :
+    ∀ o ∈ importOwners (genesisCmpOf list) oracles e, o = e.oracle := by
+  have hc : genesisCmpOf list = (list, "confirm.ExternalAddress", "==", "oracle.ExternalAddress",
+      if list = "BatchConfirms" then "SetBatchConfirm" else "SetOracleSetConfirm") := by
+    rcases hl with rfl | rfl <;> decide
+  rw [hc]
+  exact genesis_import_by_external_keeps_owner _ _ oracles e huniq
+
+/-- … and it does file it under its own oracle when that oracle is still registered with the external address it confirmed
+with (records keep their external address) -/
+theorem genesis_import_files_under_owner (list : String) (hl : list = "BatchConfirms" ∨ list = "OracleSetConfirms")
+    (oracles : List (Nat × OracleRec)) (e : Entry) (r : OracleRec)
+    (hmem : (e.oracle, r) ∈ oracles) (hx : r.external = e.external) :
+    e.oracle ∈ importOwners (genesisCmpOf list) oracles e := by
+  have hc : genesisCmpOf list = (list, "confirm.ExternalAddress", "==", "oracle.ExternalAddress",
+      if list = "BatchConfirms" then "SetBatchConfirm" else "SetOracleSetConfirm") := by
+    rcases hl with rfl | rfl <;> decide
+  rw [hc]
+  simp only [importOwners, List.mem_map, List.mem_filter]
+  exact ⟨(e.oracle, r), ⟨hmem, by simp [genesisMatches, genesisSideC, genesisSideO, hx]⟩, rfl⟩
 
 /-! ## non-vacuity -/
 
@@ -954,14 +983,14 @@ example :
   decide
 
 
-/-- `genesis_import_keeps_owner_partial` / `genesis_import_by_external_keeps_owner`: a registry in which no bridger account
+/-- `genesis_import_keeps_owner_partial` / `genesis_import_keeps_owner` / `genesis_import_files_under_owner`: a registry in which no bridger account
 changed hands — the import files the confirmation under its own oracle, by either comparison -/
 example :
     let e : Entry := ⟨.oracleSet 7, 1, "X", "extA", [9], [1, 2, 3], ⟨"X", "extA"⟩⟩
     let registry : List (Nat × OracleRec) := [(1, ⟨"X", "extA"⟩), (2, ⟨"Y", "extB"⟩)]
     (registry.map (·.1)).Nodup ∧ (e.oracle, (⟨"X", "extA"⟩ : OracleRec)) ∈ registry ∧
-    importOwners (genesisCmpOf "BatchConfirms") registry e = [1] ∧
-    importOwners ("BatchConfirms", "confirm.ExternalAddress", "==", "oracle.ExternalAddress", "SetBatchConfirm") registry e = [1] := by
+    importOwners (bridgerCmp "BatchConfirms") registry e = [1] ∧
+    importOwners (genesisCmpOf "BatchConfirms") registry e = [1] := by
   decide
 
 end FxVerif.Props.C12
